@@ -529,3 +529,65 @@ package router
 //@   callsite trySend : [to-requester] arg1 == callee
 //@   callsite trySend : [non-callee-error] !old(isCallee(d, callee, msg.Registration)) ==> is(arg2, *wamp.Error) && arg2.(*wamp.Error).Error == wamp.ErrNoSuchRegistration && arg2.(*wamp.Error).Request == msg.Request && arg2.(*wamp.Error).Type == wamp.UNREGISTER
 //@   callsite trySend : [unregistered] old(isCallee(d, callee, msg.Registration)) ==> is(arg2, *wamp.Unregistered) && arg2.(*wamp.Unregistered).Request == msg.Request
+
+// ---------------------------------------------------------------------------
+// Dealer: call bookkeeping
+
+//@ immutable invocation callID, callee, options
+//@ immutable wamp.Call *
+//@ immutable wamp.Cancel *
+//@ immutable wamp.Yield *
+//@ immutable wamp.Invocation *
+//@ immutable wamp.Result *
+//@ immutable wamp.Interrupt *
+//@ immutable wamp.Register *
+//@ immutable wamp.Unregister *
+//@ immutable wamp.Registered *
+//@ immutable wamp.Unregistered *
+
+//@ pred callsA(d *dealer) = forall c requestID :: c in d.invocationByCall ==> c in d.calls && d.invocationByCall[c] in d.invocations && d.invocations[d.invocationByCall[c]].callID == c
+//@ pred callsB(d *dealer) = forall i requestID :: i in d.invocations ==> allocated(d.invocations[i]) && d.invocations[i].callee != nil && !isnil(d.invocations[i].callee.Peer) && i.session == d.invocations[i].callee.ID && d.invocations[i].callID in d.invocationByCall && d.invocationByCall[d.invocations[i].callID] == i
+//@ pred callsC(d *dealer) = forall c requestID :: c in d.calls ==> d.calls[c] != nil && !isnil(d.calls[c].Peer) && c.session == d.calls[c].ID && c in d.invocationByCall
+//@ pred callsInv(d *dealer) = callsA(d) && callsB(d) && callsC(d)
+
+//@ pred cancellable(d *dealer, caller *wamp.Session, rid requestID) = rid in d.calls && d.calls[rid] == caller && !d.invocations[d.invocationByCall[rid]].canceled
+
+//@ pred callGone(d *dealer, rid requestID, iid requestID) = !(rid in d.calls) && !(rid in d.invocationByCall) && !(iid in d.invocations)
+
+//@ func (d *dealer) syncCancel
+//@   dyncalls-pure
+//@   on dealer
+//@   props C02 C05 C13
+//@   requires dealerNN(d) && callsInv(d) && caller != nil && !isnil(caller.Peer) && msg != nil
+//@   modifies map(d.calls), map(d.invocations), map(d.invocationByCall), all invocation.canceled, ghost sendcount
+//@   callcount trySend arg1
+//@   ensures [inv-a] callsA(d)
+//@   ensures [inv-b] callsB(d)
+//@   ensures [inv-c] callsC(d)
+//@   ensures [no-effect] !old(cancellable(d, caller, requestID(caller.ID, msg.Request))) ==> (forall c requestID :: (c in d.calls) == old(c in d.calls) && (c in d.invocationByCall) == old(c in d.invocationByCall) && (c in d.invocations) == old(c in d.invocations)) && (forall i *invocation :: i.canceled == old(i.canceled)) && (forall s *wamp.Session :: calls(trySend, s) == old(calls(trySend, s))) && (forall c mathint :: sendcount(c) == old(sendcount(c)))
+//@   ensures [not-kill-removes] old(cancellable(d, caller, requestID(caller.ID, msg.Request))) && mode != wamp.CancelModeKill ==> callGone(d, requestID(caller.ID, msg.Request), old(d.invocationByCall[requestID(caller.ID, msg.Request)]))
+//@   ensures [kill-keeps-or-removes] old(cancellable(d, caller, requestID(caller.ID, msg.Request))) && mode == wamp.CancelModeKill ==> callGone(d, requestID(caller.ID, msg.Request), old(d.invocationByCall[requestID(caller.ID, msg.Request)])) || (requestID(caller.ID, msg.Request) in d.calls && old(d.invocations[d.invocationByCall[requestID(caller.ID, msg.Request)]]).canceled && (forall s *wamp.Session :: calls(trySend, s) == old(calls(trySend, s))))
+//@   ensures [kill-degrades-to-skip] old(cancellable(d, caller, requestID(caller.ID, msg.Request))) && !old(hasFeature(d.invocations[d.invocationByCall[requestID(caller.ID, msg.Request)]].callee, "callee", "call_canceling")) ==> callGone(d, requestID(caller.ID, msg.Request), old(d.invocationByCall[requestID(caller.ID, msg.Request)]))
+//@   ensures [one-error-iff-removed] old(cancellable(d, caller, requestID(caller.ID, msg.Request))) ==> calls(trySend, caller) == old(calls(trySend, caller)) + (requestID(caller.ID, msg.Request) in d.calls ? 0 : 1)
+//@   ensures [nobody-else] forall s *wamp.Session :: s != caller ==> calls(trySend, s) == old(calls(trySend, s))
+//@   ensures [others-kept] forall c requestID :: c != requestID(caller.ID, msg.Request) ==> (c in d.calls) == old(c in d.calls) && d.calls[c] == old(d.calls[c]) && (c in d.invocationByCall) == old(c in d.invocationByCall) && d.invocationByCall[c] == old(d.invocationByCall[c])
+//@   callsite trySend : [error-to-caller] arg1 == caller && is(arg2, *wamp.Error) && arg2.(*wamp.Error).Type == wamp.CALL && arg2.(*wamp.Error).Request == msg.Request && arg2.(*wamp.Error).Error == reason && (len(errArgs) != 0 ==> arg2.(*wamp.Error).Arguments == errArgs)
+//@   sendsite interrupt : [interrupt-when-allowed] mode != wamp.CancelModeSkip && old(cancellable(d, caller, requestID(caller.ID, msg.Request))) && ch == sendChan(old(d.invocations[d.invocationByCall[requestID(caller.ID, msg.Request)]].callee)) && old(hasFeature(d.invocations[d.invocationByCall[requestID(caller.ID, msg.Request)]].callee, "callee", "call_canceling"))
+//@   sendsite interrupt : [interrupt-content] is(m, *wamp.Interrupt) && m.(*wamp.Interrupt).Request == old(d.invocationByCall[requestID(caller.ID, msg.Request)]).request && "mode" in m.(*wamp.Interrupt).Options && m.(*wamp.Interrupt).Options["mode"] == box(mode) && m.(*wamp.Interrupt).Options["reason"] == box(reason)
+
+//@ func (d *dealer) syncError
+//@   dyncalls-pure
+//@   on dealer
+//@   props C02 C03 C05
+//@   requires dealerNN(d) && callsInv(d) && callee != nil && msg != nil
+//@   modifies map(d.calls), map(d.invocations), map(d.invocationByCall), ghost sendcount
+//@   callcount trySend arg1
+//@   ensures [inv-a] callsA(d)
+//@   ensures [inv-b] callsB(d)
+//@   ensures [inv-c] callsC(d)
+//@   ensures [unknown-invocation-no-effect] !old(requestID(callee.ID, msg.Request) in d.invocations) ==> (forall c requestID :: (c in d.calls) == old(c in d.calls) && (c in d.invocationByCall) == old(c in d.invocationByCall) && (c in d.invocations) == old(c in d.invocations)) && (forall s *wamp.Session :: calls(trySend, s) == old(calls(trySend, s))) && (forall c mathint :: sendcount(c) == old(sendcount(c)))
+//@   ensures [finishes-call] old(requestID(callee.ID, msg.Request) in d.invocations) ==> callGone(d, old(d.invocations[requestID(callee.ID, msg.Request)].callID), requestID(callee.ID, msg.Request))
+//@   ensures [one-error-to-caller] old(requestID(callee.ID, msg.Request) in d.invocations) ==> calls(trySend, old(d.calls[d.invocations[requestID(callee.ID, msg.Request)].callID])) == old(calls(trySend, d.calls[d.invocations[requestID(callee.ID, msg.Request)].callID])) + 1
+//@   ensures [nobody-else] forall s *wamp.Session :: old(requestID(callee.ID, msg.Request) in d.invocations) && s != old(d.calls[d.invocations[requestID(callee.ID, msg.Request)].callID]) ==> calls(trySend, s) == old(calls(trySend, s))
+//@   ensures [others-kept] forall c requestID :: old(requestID(callee.ID, msg.Request) in d.invocations) && c != old(d.invocations[requestID(callee.ID, msg.Request)].callID) ==> (c in d.calls) == old(c in d.calls) && d.calls[c] == old(d.calls[c]) && (c in d.invocationByCall) == old(c in d.invocationByCall) && d.invocationByCall[c] == old(d.invocationByCall[c])
+//@   callsite trySend : [forwarded-to-caller] arg1 == old(d.calls[d.invocations[requestID(callee.ID, msg.Request)].callID]) && is(arg2, *wamp.Error) && arg2.(*wamp.Error).Type == wamp.CALL && arg2.(*wamp.Error).Request == old(d.invocations[requestID(callee.ID, msg.Request)].callID).request && arg2.(*wamp.Error).Error == msg.Error && arg2.(*wamp.Error).Details == msg.Details && arg2.(*wamp.Error).Arguments == msg.Arguments && arg2.(*wamp.Error).ArgumentsKw == msg.ArgumentsKw
